@@ -288,8 +288,8 @@ def scanner_vc(S, prefix='scanner'):
         ctx.ghost['yield_mark'] = 0
         environ = V.I.lib.environ()
         fv = S.resolve(mod, 'TrashDirsScanner.scan_trash_dirs')
-        S.resolve(mod, 'TopTrashDirRules.valid_to_be_read')
-        S.resolve('trashcli.lib.user_info', 'SingleUserInfoProvider.get_user_info')
+        S.note_function(mod, 'TopTrashDirRules.valid_to_be_read')
+        S.note_function('trashcli.lib.user_info', 'SingleUserInfoProvider.get_user_info')
         g = V.I.call_function(fv, [], {'self': scanner, 'environ': environ,
                                        'uid': uid})
         first = True
@@ -411,7 +411,7 @@ def restore_dirs_vc(S, prefix='restore-dirs'):
         for q in ('TrashDirectoriesImpl._only_secure',
                   'TrashDirectories2.trash_directories_or_user',
                   'TrashDirectories1.all_trash_directories'):
-            S.resolve('trashcli.restore.trash_directories', q)
+            S.note_function('trashcli.restore.trash_directories', q)
         cli = None
         if ctx.choose(2, 'trash-dir-from-cli') == 1:
             cli = arg_str('trash_dir_from_cli')
